@@ -326,7 +326,7 @@ where
     for<'a> RawDataSlice<'a, C::Raw, O>: IntoIterator<Item = C::Raw>,
 {
     let tname: &'static str = Box::leak(format!("{}bpp/{}/{}", C::bits(), C::name(), if O::IS_ALTERNATE_ORDER { "BigEndianLsb0" } else { "LittleEndianMsb0" }).into_boxed_str());
-    let (mw, mh, reps) = run.tier((12u32, 8u32, 40u64), (24u32, 12u32, 400u64));
+    let (mw, mh, reps) = run.tier((12u32, 8u32, 40u64), (33u32, 17u32, 1500u64));
     let grid = (mw as u64 + 1) * (mh as u64 + 1);
     run.generate(tname, grid * reps, false, 0.15, |ctx, idx, rng| {
         let g = idx % grid;
